@@ -703,6 +703,12 @@ def finish(prop, mod, tier, args, results, viol_docs, t_start):
             'probes': probes,
             'cas': {'won': agg_stats.get('cas_won', 0),
                     'lost': agg_stats.get('cas_lost', 0)},
+            'overlap_windows': {
+                'opened': agg_stats.get('txwin_opened', 0),
+                'effective': agg_stats.get('txwin_effective', 0),
+                'note': 'a transaction without writes parked before its '
+                        'first write while other nodes commit; effective = '
+                        'another transaction committed meanwhile'},
             'known_findings_matched': dict(
                 (kid, cnt) for kid, (k, cnt) in known_hits.items()),
             'real_components': REAL_COMPONENTS + getattr(mod, 'REAL', []),
